@@ -44,6 +44,14 @@ def neighbour_package():
     defs += mk("StepName", steps=[("head", N("NbRecStepName")), ("elements", S(N("NbRecStepName"))), ("nums", V(P("int32"))), ("tail", P("uint64"))])
     defs += mk("StepOrder", steps=[("head", N("NbRecStepOrder")), ("nums", V(P("int32"))), ("items", S(N("NbRecStepOrder"))), ("tail", P("uint64"))])
     defs += mk("StepRemoved", steps=[("head", N("NbRecStepRemoved")), ("items", S(N("NbRecStepRemoved"))), ("nums", V(P("int32")))])
+    arrf = lambda sfx, t: [("x", P("int32")), ("y", P("string")), ("z", Opt(P("float64"))), ("e", N("NbEnum" + sfx)), ("grid", t)]
+    defs += mk("ArrA", fields=arrf("ArrA", A(P("int32"), ((None, 3), (None, 4)))))
+    defs += mk("ArrB", fields=arrf("ArrB", A(P("int32"), ((None, 2), (None, 6)))))
+    defs += mk("ArrC", fields=arrf("ArrC", A(P("int32"), 2)))
+    defs += mk("ArrD", fields=arrf("ArrD", A(P("int32"), ((None, 4), (None, 3)))))
+    defs += mk("ArrE", fields=arrf("ArrE", A(P("int32"), (("r", 3), ("c", 4)))))
+    defs += mk("VecA", fields=arrf("VecA", V(P("int32"), 3)))
+    defs += mk("VecB", fields=arrf("VecB", V(P("int32"), 4)))
     defs += mk("NotStream", steps=[("head", N("NbRecNotStream")), ("items", V(N("NbRecNotStream"))), ("nums", V(P("int32"))), ("tail", P("uint64"))])
     return Pkg("Neighbours", defs)
 
@@ -143,6 +151,21 @@ def run(ctx):
         for ep in eps:
             jobs.append((ep, "NbA", "bin", binB, {"class": "neighbour-rev:" + B.name[2:], "writer": B.name, "reader": "NbA"}))
             jobs.append((ep, "NbA", "ndjson", ndB, {"class": "neighbour-rev:" + B.name[2:], "writer": B.name, "reader": "NbA"}))
+    fam = [p for p in pkg.protocols() if p.name[2:5] in ("Arr", "Vec")]
+    for Pa in fam:
+        vg = values.ValueGen(c, rng("C15arr", Pa.name), json_safe=True)
+        va = vg.steps(Pa, stream_len=2)
+        # give every stream the name of the reader's protocol: only the *types* differ
+        for Pb in fam:
+            if Pb.name == Pa.name:
+                continue
+            import json as _json
+            sa = m.schema(Pa.name)
+            # a stream of Pa carrying Pa's schema with Pa's names replaced by Pb's: what a near-identical other model would write
+            sb_names = sa.replace(Pa.name, Pb.name).replace("NbRec" + Pa.name[2:], "NbRec" + Pb.name[2:]).replace("NbEnum" + Pa.name[2:], "NbEnum" + Pb.name[2:])
+            data = c.encode_stream(Pa, sb_names, va)
+            for ep in eps:
+                jobs.append((ep, Pb.name, "bin", data, {"class": "neighbour:array-extent", "writer": Pa.name, "reader": Pb.name}))
     # header corruptions
     valsA = vgA.steps(A, stream_len=2)
     binA = c.encode_stream(A, m.schema("NbA"), valsA)
